@@ -3,36 +3,9 @@ import HvLat.Laws.LeafB
 import HvLat.Laws.WrapB
 import HvLat.Laws.VecB
 import HvLat.Laws.MapB
+import HvLat.Laws.DomPair
 
 namespace HvLat
-
-/-- syntactic check: the type has a value that is not bottom (fails only for towers over `()`) -/
-def nondeg : LTy → Bool
-  | .maxN b => decide (0 < b)
-  | .minN b => decide (0 < b)
-  | .maxB => true
-  | .minB => true
-  | .unit => false
-  | .conflict => true
-  | .set => true
-  | .map v => nondeg v
-  | .withBot t => nondeg t
-  | .withTop _ => true
-  | .pair a b => nondeg a || nondeg b
-  | .domPair _ _ => false
-  | .vec _ => true
-
-/-- domain of the C03 theorems: as `okA`, and `MapUnion` / `WithBot` are not instantiated with a
-one-point value lattice (for those, `is_top` is `false` although every value is greatest — see
-`degenerate_isTop_refuted` in Props/C03.lean) -/
-def okB : LTy → Bool
-  | .domPair _ _ => false
-  | .map v => nondeg v && okB v
-  | .withBot t => nondeg t && okB t
-  | .withTop t => okB t
-  | .vec t => okB t
-  | .pair a b => okB a && okB b
-  | _ => true
 
 theorem okA_of_okB : ∀ t, okB t = true → okA t = true
   | .maxN _, _ | .minN _, _ | .maxB, _ | .minB, _ | .unit, _ | .conflict, _ | .set, _ => rfl
@@ -43,73 +16,153 @@ theorem okA_of_okB : ∀ t, okB t = true → okA t = true
   | .pair a b, h => by
     simp only [okB, Bool.and_eq_true] at h
     simp [okA, okA_of_okB a h.1, okA_of_okB b h.2]
-  | .domPair _ _, h => by simp [okB] at h
+  | .domPair k v, h => by
+    simp only [okB, Bool.and_eq_true] at h
+    simp [okA, h.1.1, h.1.2, okA_of_okB v h.2]
 
-theorem nondeg_sound : ∀ t, okA t = true → nondeg t = true → Nondeg (lat t) (sem t)
-  | .maxN b, _, h => ⟨(1 : Nat), by simp [nondeg] at h; exact h, rfl⟩
-  | .minN b, _, h => ⟨(0 : Nat), Nat.zero_le _, by
+theorem wf_inh : ∀ t : LTy, ∃ a, (sem t).wf a
+  | .maxN b => ⟨(0 : Nat), Nat.zero_le _⟩
+  | .minN b => ⟨(0 : Nat), Nat.zero_le _⟩
+  | .maxB => ⟨true, trivial⟩
+  | .minB => ⟨true, trivial⟩
+  | .unit => ⟨(), trivial⟩
+  | .conflict => ⟨(none : Option Nat), trivial⟩
+  | .set => ⟨([] : List Nat), List.nodup_nil⟩
+  | .map v => ⟨([] : List (Nat × Val v)), by simp [sem, Sem.map]⟩
+  | .withBot v => ⟨(none : Option (Val v)), trivial⟩
+  | .withTop v => ⟨(none : Option (Val v)), trivial⟩
+  | .vec v => ⟨([] : List (Val v)), fun x hx => nomatch hx⟩
+  | .pair a b => by
+    obtain ⟨x, wx⟩ := wf_inh a; obtain ⟨y, wy⟩ := wf_inh b
+    exact ⟨((x, y) : Val a × Val b), wx, wy⟩
+  | .domPair a b => by
+    obtain ⟨x, wx⟩ := wf_inh a; obtain ⟨y, wy⟩ := wf_inh b
+    exact ⟨((x, y) : Val a × Val b), wx, wy⟩
+
+theorem nondeg_sound : ∀ t, nondeg t = true → Nondeg (lat t) (sem t)
+  | .maxN b, h => ⟨(1 : Nat), by simp [nondeg] at h; exact h, rfl⟩
+  | .minN b, h => ⟨(0 : Nat), Nat.zero_le _, by
       simp [nondeg] at h; show ((0 : Nat) == b) = false; simp; omega⟩
-  | .maxB, _, _ => ⟨true, trivial, rfl⟩
-  | .minB, _, _ => ⟨false, trivial, rfl⟩
-  | .unit, _, h => by simp [nondeg] at h
-  | .conflict, _, _ => ⟨(none : Option Nat), trivial, rfl⟩
-  | .set, _, _ => ⟨([0] : List Nat), by show [0].Nodup; simp, rfl⟩
-  | .map v, ho, h => by
-    obtain ⟨x, wx, hx⟩ := nondeg_sound v (by simpa [okA] using ho) (by simpa [nondeg] using h)
+  | .maxB, _ => ⟨true, trivial, rfl⟩
+  | .minB, _ => ⟨false, trivial, rfl⟩
+  | .unit, h => by simp [nondeg] at h
+  | .conflict, _ => ⟨(none : Option Nat), trivial, rfl⟩
+  | .set, _ => ⟨([0] : List Nat), by show [0].Nodup; simp, rfl⟩
+  | .map v, h => by
+    obtain ⟨x, wx, hx⟩ := nondeg_sound v (by simpa [nondeg] using h)
     refine ⟨([(0, x)] : List (Nat × Val v)), ⟨by simp, ?_⟩, ?_⟩
     · intro e he; simp at he; subst he; exact wx
     · show ([(0, x)] : List (Nat × Val v)).all (fun e => (lat v).isBot e.2) = false
       simp [hx]
-  | .withBot v, ho, h => by
-    obtain ⟨x, wx, hx⟩ := nondeg_sound v (by simpa [okA] using ho) (by simpa [nondeg] using h)
+  | .withBot v, h => by
+    obtain ⟨x, wx, hx⟩ := nondeg_sound v (by simpa [nondeg] using h)
     exact ⟨(some x : Option (Val v)), wx, hx⟩
-  | .withTop v, _, _ => ⟨(none : Option (Val v)), trivial, rfl⟩
-  | .vec v, ho, _ => by
-    obtain ⟨x, wx⟩ := (lawfulA_all v (by simpa [okA] using ho)).inh
+  | .withTop v, _ => ⟨(none : Option (Val v)), trivial, rfl⟩
+  | .vec v, _ => by
+    obtain ⟨x, wx⟩ := wf_inh v
     exact ⟨([x] : List (Val v)), by intro y hy; simp at hy; subst hy; exact wx, rfl⟩
-  | .pair a b, ho, h => by
-    simp only [okA, Bool.and_eq_true] at ho
+  | .pair a b, h => by
     simp only [nondeg, Bool.or_eq_true] at h
-    obtain ⟨a0, wa0⟩ := (lawfulA_all a ho.1).inh
-    obtain ⟨b0, wb0⟩ := (lawfulA_all b ho.2).inh
+    obtain ⟨a0, wa0⟩ := wf_inh a
+    obtain ⟨b0, wb0⟩ := wf_inh b
     rcases h with h | h
-    · obtain ⟨x, wx, hx⟩ := nondeg_sound a ho.1 h
+    · obtain ⟨x, wx, hx⟩ := nondeg_sound a h
       exact ⟨((x, b0) : Val a × Val b), ⟨wx, wb0⟩, by
         show (Lat.pair (lat a) (lat b)).isBot (x, b0) = false
         rw [aux_pair_isBot]; simp [hx]⟩
-    · obtain ⟨y, wy, hy⟩ := nondeg_sound b ho.2 h
+    · obtain ⟨y, wy, hy⟩ := nondeg_sound b h
       exact ⟨((a0, y) : Val a × Val b), ⟨wa0, wy⟩, by
         show (Lat.pair (lat a) (lat b)).isBot (a0, y) = false
         rw [aux_pair_isBot]; simp [hy]⟩
-  | .domPair _ _, ho, _ => by simp [okA] at ho
+  | .domPair a b, h => by
+    simp only [nondeg, Bool.or_eq_true] at h
+    obtain ⟨a0, wa0⟩ := wf_inh a
+    obtain ⟨b0, wb0⟩ := wf_inh b
+    rcases h with h | h
+    · obtain ⟨x, wx, hx⟩ := nondeg_sound a h
+      exact ⟨((x, b0) : Val a × Val b), ⟨wx, wb0⟩, by
+        show ((lat a).isBot x && (lat b).isBot b0) = false
+        simp [hx]⟩
+    · obtain ⟨y, wy, hy⟩ := nondeg_sound b h
+      exact ⟨((a0, y) : Val a × Val b), ⟨wa0, wy⟩, by
+        show ((lat a).isBot a0 && (lat b).isBot y) = false
+        simp [hy]⟩
 
-theorem lawfulB_all : ∀ t : LTy, okB t = true → LawfulB (lat t) (sem t)
-  | .maxN b, _ => lawfulB_maxN b
-  | .minN b, _ => lawfulB_minN b
-  | .maxB, _ => lawfulB_maxB
-  | .minB, _ => lawfulB_minB
-  | .unit, _ => lawfulB_unit
-  | .conflict, _ => lawfulB_conflict
-  | .set, _ => lawfulB_set
-  | .map v, h => by
+theorem aux_total_opt {L : Lat β} {S : Sem β} (tt : Total L S) :
+    Total (Lat.withBot L) (Sem.withBot L S) ∧ Total (Lat.withTop L) (Sem.withTop S) := by
+  constructor
+  · intro a b wa wb
+    cases a <;> cases b <;> simp only [Lat.withBot] <;> try (split <;> simp)
+    · simp
+    · exact tt _ _ wa wb
+  · intro a b wa wb
+    cases a <;> cases b <;> simp only [Lat.withTop] <;> try simp
+    exact tt _ _ wa wb
+
+/-- the three layers together, by induction on the type -/
+theorem lawful_all : ∀ t : LTy,
+    (okA t = true → LawfulA (lat t) (sem t)) ∧
+    (okB t = true → LawfulB (lat t) (sem t)) ∧
+    (okB t = true → total t = true → Total (lat t) (sem t))
+  | .maxN b => ⟨fun _ => lawfulA_maxN b, fun _ => lawfulB_maxN b, fun _ _ a c _ _ => by simp [lat, Lat.maxN]⟩
+  | .minN b => ⟨fun _ => lawfulA_minN b, fun _ => lawfulB_minN b, fun _ _ a c _ _ => by simp [lat, Lat.minN]⟩
+  | .maxB => ⟨fun _ => lawfulA_maxB, fun _ => lawfulB_maxB, fun _ _ a c _ _ => by simp [lat, Lat.maxB]⟩
+  | .minB => ⟨fun _ => lawfulA_minB, fun _ => lawfulB_minB, fun _ _ a c _ _ => by simp [lat, Lat.minB]⟩
+  | .unit => ⟨fun _ => lawfulA_unit, fun _ => lawfulB_unit, fun _ _ a c _ _ => by simp [lat, Lat.unit]⟩
+  | .conflict => ⟨fun _ => lawfulA_conflict, fun _ => lawfulB_conflict, fun _ h => by simp [total] at h⟩
+  | .set => ⟨fun _ => lawfulA_set, fun _ => lawfulB_set, fun _ h => by simp [total] at h⟩
+  | .map v => by
+    have ih := lawful_all v
+    refine ⟨fun h => lawfulA_map (ih.1 (by simpa [okA] using h)), fun h => ?_, fun _ h => by simp [total] at h⟩
     simp only [okB, Bool.and_eq_true] at h
-    have oa := okA_of_okB v h.2
-    exact lawfulB_map (lawfulA_all v oa) (lawfulB_all v h.2) (nondeg_sound v oa h.1)
-  | .withBot v, h => by
-    simp only [okB, Bool.and_eq_true] at h
-    have oa := okA_of_okB v h.2
-    exact lawfulB_withBot (lawfulA_all v oa) (lawfulB_all v h.2) (nondeg_sound v oa h.1)
-  | .withTop v, h => by
+    exact lawfulB_map (ih.1 (okA_of_okB v h.2)) (ih.2.1 h.2) (nondeg_sound v h.1)
+  | .withBot v => by
+    have ih := lawful_all v
+    refine ⟨fun h => lawfulA_withBot (ih.1 (by simpa [okA] using h)), fun h => ?_, fun h ht => ?_⟩
+    · simp only [okB, Bool.and_eq_true] at h
+      exact lawfulB_withBot (ih.1 (okA_of_okB v h.2)) (ih.2.1 h.2) (nondeg_sound v h.1)
+    · simp only [okB, Bool.and_eq_true] at h
+      exact (aux_total_opt (ih.2.2 h.2 (by simpa [total] using ht))).1
+  | .withTop v => by
+    have ih := lawful_all v
+    refine ⟨fun h => lawfulA_withTop (ih.1 (by simpa [okA] using h)), fun h => ?_, fun h ht => ?_⟩
+    · simp only [okB] at h
+      exact lawfulB_withTop (ih.1 (okA_of_okB v h)) (ih.2.1 h)
+    · simp only [okB] at h
+      exact (aux_total_opt (ih.2.2 h (by simpa [total] using ht))).2
+  | .vec v => by
+    have ih := lawful_all v
+    refine ⟨fun h => lawfulA_vec (ih.1 (by simpa [okA] using h)), fun h => ?_, fun _ h => by simp [total] at h⟩
     simp only [okB] at h
-    exact lawfulB_withTop (lawfulA_all v (okA_of_okB v h)) (lawfulB_all v h)
-  | .vec v, h => by
-    simp only [okB] at h
-    exact lawfulB_vec (lawfulA_all v (okA_of_okB v h)) (lawfulB_all v h)
-  | .pair a b, h => by
-    simp only [okB, Bool.and_eq_true] at h
-    exact lawfulB_pair (lawfulA_all a (okA_of_okB a h.1)) (lawfulA_all b (okA_of_okB b h.2))
-      (lawfulB_all a h.1) (lawfulB_all b h.2)
-  | .domPair _ _, h => by simp [okB] at h
+    exact lawfulB_vec (ih.1 (okA_of_okB v h)) (ih.2.1 h)
+  | .pair a b => by
+    have iha := lawful_all a
+    have ihb := lawful_all b
+    refine ⟨fun h => ?_, fun h => ?_, fun _ h => by simp [total] at h⟩
+    · simp only [okA, Bool.and_eq_true] at h
+      exact lawfulA_pair (iha.1 h.1) (ihb.1 h.2)
+    · simp only [okB, Bool.and_eq_true] at h
+      exact lawfulB_pair (iha.1 (okA_of_okB a h.1)) (ihb.1 (okA_of_okB b h.2)) (iha.2.1 h.1) (ihb.2.1 h.2)
+  | .domPair k v => by
+    have ihk := lawful_all k
+    have ihv := lawful_all v
+    refine ⟨fun h => ?_, fun h => ?_, fun h ht => ?_⟩
+    · simp only [okA, Bool.and_eq_true] at h
+      exact lawfulA_domPair (ihk.1 (okA_of_okB k h.1.2)) (ihk.2.1 h.1.2) (ihk.2.2 h.1.2 h.1.1) (ihv.1 h.2)
+    · simp only [okB, Bool.and_eq_true] at h
+      exact lawfulB_domPair (ihk.1 (okA_of_okB k h.1.2)) (ihk.2.1 h.1.2) (ihk.2.2 h.1.2 h.1.1)
+        (ihv.1 (okA_of_okB v h.2)) (ihv.2.1 h.2)
+    · simp only [okB, Bool.and_eq_true] at h
+      simp only [total, Bool.and_eq_true] at ht
+      exact total_domPair (ihk.1 (okA_of_okB k h.1.2)) (ihk.2.1 h.1.2) (ihk.2.2 h.1.2 h.1.1)
+        (ihv.1 (okA_of_okB v h.2)) (ihv.2.2 h.2 ht.2)
+
+theorem lawfulA_all (t : LTy) (h : okA t = true) : LawfulA (lat t) (sem t) := (lawful_all t).1 h
+theorem lawfulB_all (t : LTy) (h : okB t = true) : LawfulB (lat t) (sem t) := (lawful_all t).2.1 h
+
+/-- the domain of the C01/C02 theorems: nestings of the shipped constructors -/
+def ok (t : LTy) : Bool := okA t
+theorem lawfulA_of_ok (t : LTy) (h : ok t = true) : LawfulA (lat t) (sem t) := lawfulA_all t h
 
 /-- domain of the C03 theorems -/
 def ok3 (t : LTy) : Bool := okB t
